@@ -3,6 +3,7 @@ package exec
 // Intrinsics for the harness API package <module>/zzverifapi and the registry.
 
 import (
+	"os"
 	"fmt"
 	"go/types"
 	"math/big"
@@ -208,6 +209,8 @@ func init() {
 		}
 		if sx, sy := strip(x), strip(y); sx.Op == "app" && sy.Op == "app" {
 			p.pointEqLemma(sx, sy)
+		} else if os.Getenv("GOSYM_TRACE_HASH") != "" {
+			p.note("CongMod: no coordinate lemma for %.60s / %.60s", sx.String(), sy.String())
 		}
 		return normBool(p.congruent(x, y, p.bigTerm(fr, a[2])))
 	})
